@@ -4263,8 +4263,8 @@ int EGLPNUM_TYPENAME_ILLlib_print_x (
 		/*if (!nonZerosOnly || dx[j] > PRINT_TOL || dx[j] < -PRINT_TOL) */
 		if (!nonZerosOnly || EGLPNUM_TYPENAME_EGlpNumIsNeqZero (dx[j], PRINT_TOL))
 		{
-			strtmp = EGLPNUM_TYPENAME_EGlpNumGetStr (dx[j]);
 			ILL_FAILfalse (qslp->colnames[j] != NULL, "no NULL names PLEASE!");
+			strtmp = EGLPNUM_TYPENAME_EGlpNumGetStr (dx[j]);
 			EGioPrintf (fd, "%s = %s\n", qslp->colnames[j], strtmp);
 			EGioFlush (fd);
 			EGfree (strtmp);
